@@ -255,9 +255,9 @@ func (t *Chain) SubmitTx(ctx xctx.XContext, tx *lpb.Transaction) error {
 	t.txIdCache.Set(string(tx.GetTxid()), true, TxIdCacheExpired)
 
 	// 验证交易
-	_, err := t.ctx.State.VerifyTx(tx)
-	if err != nil {
-		log.Error("verify tx error", "txid", utils.F(tx.GetTxid()), "err", err)
+	isValid, err := t.ctx.State.VerifyTx(tx)
+	if err != nil || !isValid {
+		log.Error("verify tx error", "txid", utils.F(tx.GetTxid()), "valid", isValid, "err", err)
 		return common.ErrTxVerifyFailed.More("err:%v", err)
 	}
 
